@@ -528,6 +528,15 @@ def roundtrip_corpus(tier, seed):
     for k in (2, 3):
         for combo in itertools.product(lines, repeat=k):
             payloads.append("\n".join(combo))
+    # runs of more than three quotes inside a value: the escaped triple quote of the printed form is then followed / preceded by plain quotes
+    for k in (4, 5, 6, 7):
+        for pre, post in (("a", "b"), ("", "b"), ("a ", " b"), ("a\n", "\nb")):
+            payloads.append(pre + '"' * k + post)
+    payloads += ['a"b""c"""d""""e', 'x\\"""y', '""" """ a']
+    # the same runs spelled the other way round in the source: plain quotes first, the escaped triple quote last
+    for src in ['"""say "\\"""hello"""', '"""a""\\"""b"""', '"""\\"""\\"""x"""', '"""a "\\""" b"""']:
+        for entry, tpl in STRING_TEMPLATES:
+            add(entry, tpl.replace("%s", src))
     for p in dict.fromkeys(payloads):
         forms = [quote(p), block_quote(p)]
         for f in forms:
@@ -664,11 +673,21 @@ def _visitor_chunk(args):
             edits += ne
             fails += f2
             fails += VC.check_chain(text, parse)
+        fails += VC.check_transforms(text, parse)
     return n, nodes, edits, fails
+
+
+VISITOR_DOCUMENTS = [
+    "{ x: a @skip(if: true) b y: someField(snake_arg: 1) @include(if: false) { z: inner_field @d(a: [1]) innerField } }",
+    "query ($v: Boolean!) { ... on T @d { x: a @skip(if: $v) { y: b @include(if: $v) } } ...F } fragment F on T { fooBar: foo_bar @d fooBar2: fooBar }",
+    "mutation { do_it: doIt(input_value: {snake_key: 1}) @d { __typename resultCode: result_code @d } }",
+]
 
 
 def visitor_check(tier, seed, jobs=16):
     texts = [t for e, t in roundtrip_corpus(tier, seed) if e == "document"]
+    # hand-written documents first (aliases with arguments and directives, descriptions on every member, keyword-like names, camelCase / snake_case names)
+    texts = [t for t in HAND_DOCUMENTS if "%" not in t and "$v]" not in t][:14] + VISITOR_DOCUMENTS + texts
     texts = list(dict.fromkeys(texts))
     size = max(1, len(texts) // (jobs * 4))
     budget = 4000 if tier == "thorough" else 1200
